@@ -242,7 +242,7 @@ class Runner(object):
             return
         if isinstance(t, (ast.Tuple, ast.List)):
             for e in t.elts:
-                self.store(e, V({"any"}, derived=v.derived), env, fi, cls, stmt)
+                self.store(e, V({"str"}) if v.tag == "strpair" else V({"any"}, derived=v.derived), env, fi, cls, stmt)
             return
         if isinstance(t, (ast.Attribute, ast.Subscript)):
             base = self.ev(t.value, env, fi, cls)
@@ -448,6 +448,8 @@ class Runner(object):
     def element_of(self, it):
         if it.tag == "valid_types":
             return V({"str"})  # the declared table maps type names (text) to types: iterating it yields the names
+        if it.tag == "strpair":
+            return V({"str"})  # os.path.split / splitext of text: a pair of texts
         return V({"any"}, derived=it.derived, tag="element")
 
     def ev(self, e, env, fi, cls):
@@ -890,6 +892,13 @@ class Runner(object):
             excs = ["builtins.ValueError"] + ([] if q in ("os.path.realpath", "os.path.islink") else ["builtins.OSError"])
             self.may_raise(excs, e)
             return V({"str"} if q in ("os.path.realpath", "os.readlink") else {"any"})
+        if q in ("os.path.split", "os.path.splitext", "os.path.splitdrive"):
+            if a0 is not None and not a0.kinds <= {"str", "bytes"}:
+                if "any" in a0.kinds:
+                    self.may_raise(["builtins.TypeError"], e)
+                else:
+                    self.raise_("builtins.TypeError", e)
+            return V({"tuple1"}, tag="strpair")
         if q == "os.path.join":
             for x in A:
                 if not x.kinds <= {"str", "bytes"}:
